@@ -571,6 +571,7 @@ def plan(tier, seed):
     for s, c in harness.split_range(nrand, nparts):
         shards.append(dict(kind="rand", seed=seed, start=s, count=c))
     shards.append(dict(kind="live", ticks=25 if tier == "quick" else 200))
+    shards.append(dict(kind="deep"))
     return shards
 
 
@@ -594,6 +595,22 @@ def run_shard(shard):
                          dict(procs={"1": [0, 1], "5": [6, 100], "6": [5, 200]}, caller=5, recycle=True)]:
                 run_case(case, acc)
         acc.exhaustive = True
+    elif k == "deep":
+        # "any number of processes": a chain deeper than the interpreter's recursion limit, a wide fan-out, and a chain whose
+        # members were started (= are listed) in the opposite order of their pids
+        import sys as _sys
+        n = _sys.getrecursionlimit() * 3
+        chain = {"1": [0, 1]}
+        chain.update({str(10 + i): [1 if i == 0 else 9 + i, 100 + i] for i in range(n)})
+        run_case(dict(procs=chain, caller=10), acc)
+        run_case(dict(procs=chain, caller=10 + n // 2), acc)
+        back = {"1": [0, 1]}
+        back.update({str(10 + n - i): [1 if i == 0 else 11 + n - i, 100 + i] for i in range(n)})
+        run_case(dict(procs=back, caller=10 + n), acc)
+        wide = {"1": [0, 1], "5": [1, 50]}
+        wide.update({str(10 + i): [5, 100 + i % 7] for i in range(n)})
+        run_case(dict(procs=wide, caller=5), acc)
+        acc.count("deep_or_wide_trees_checked", 4)
     elif k == "rand":
         for i in range(shard["start"], shard["start"] + shard["count"]):
             run_case(gen_random(harness.rng_for(shard["seed"], "c05", i)), acc)
